@@ -1,11 +1,39 @@
-From Coq Require Import List NArith Bool.
-From NV Require Import Gen.Fat.
-Open Scope N_scope.
-Theorem C06_source_facts :
-  (fat12_min_valid, fat12_max_valid, fat12_end_mark) = (2, 4079, 4095) /\
-  (fat16_min_valid, fat16_max_valid, fat16_end_mark) = (2, 65519, 65535) /\
-  (fat32_min_valid, fat32_max_valid, fat32_end_mark) = (2, 268435439, 268435455) /\
-  (fat12_threshold, fat16_threshold) = (4085, 65525) /\ fs_default_atime = false /\
-  de_sizeof = 32 /\ lfn_sizeof = 32 /\ bpb_sizeof = 36 /\ lfn_checksum_standard = true.
+(* C06 -- Serving is read-only: images are never modified and writes are refused. *)
+From Coq Require Import List Arith NArith Bool String.
+From NV Require Import Lib.Res Fat.SkelDefs Fat.SkelProofs Gen.FatSkel Fat.SkelTheorems Gen.Boot Gen.Fat Gen.Tftp
+     Tftp.Packet Tftp.Transfer Tftp.ServerProofs.
+Import ListNotations.
+
+(* the three independent defaults that make serving read-only, as the source has them now *)
+Theorem C06_ro_defaults :
+  diskimage_default_access_read = true /\ diskimage_opens_rb_unless_write = true /\
+  diskimage_maps_with_access = true /\ boot_maps_image_with_defaults = true /\
+  fs_default_atime = false /\ client_open_mode_rb = true.
 Proof. repeat split; reflexivity. Qed.
-Print Assumptions C06_source_facts.
+Print Assumptions C06_ro_defaults.
+
+Theorem C06_skeleton_check : check06 = true.
+Proof. exact check06_holds. Qed.
+Print Assumptions C06_skeleton_check.
+
+(* With that configuration (file opened 'rb', access times off) NO execution of the entry points
+   used while serving -- open, readinto / readall, seek, close, path resolution, listing --
+   stores into the image: any volume, including dirty-flagged ones and ones with zero-length
+   files that own a cluster. *)
+Theorem C06_serving_never_stores : forall f body t,
+  In f entries_serve -> nth_error skeleton f = Some body -> exec skeleton serve_env f body t ->
+  no_poke t = true.
+Proof. exact skel_serving_never_pokes. Qed.
+Print Assumptions C06_serving_never_stores.
+
+(* a write request is refused with an ERROR packet and starts nothing (from C05) *)
+Theorem C06_wrq_refused : forall resolve src d fl now f m o,
+  parse d = Ok (WRQ f m o) -> main_handle resolve src d fl now = MReply (handle_exn AttributeError).
+Proof. exact wrq_refused. Qed.
+Print Assumptions C06_wrq_refused.
+
+Example C06_nonvacuous :
+  (1 < List.length entries_serve)%nat /\ serve_env 0 = false /\ serve_env 3 = true /\
+  ok_prog_from (fun _ => false) sel_none serve_env no_exempt 0 [[SGuard 1 [SPoke 0]]] = true /\
+  ok_prog_from (fun _ => false) sel_none serve_env no_exempt 0 [[SGuard 3 [SPoke 0]]] = false.
+Proof. repeat split; try reflexivity; vm_compute; repeat constructor. Qed.
